@@ -34,7 +34,7 @@ typedef struct {
     const unsigned char *kind, *nk; const unsigned char (*str)[TS + 1]; const unsigned char (*key)[TS + 1]; const int *ival; const unsigned char *flag;
     cJSON *node[TNN];           /* snapshot: node pointers by index (NULL if absent) */
     char *ownstr[TNN], *ownkey[TNN];
-    unsigned char bkey[TNN], bstr[TNN];     /* node i was built with a borrowed key / borrowed string */
+    unsigned char bkey[TNN], bstr[TNN], bcont[TNN];     /* node i was built with a borrowed key / borrowed string */
 } vf_tree;
 
 /* which kinds a harness admits: bit k set => kind k of the list below may occur */
@@ -46,6 +46,7 @@ typedef struct {
 #endif
 #define VF_FLAG_REF 1           /* string node / container whose payload is borrowed (cJSON_IsReference) */
 #define VF_FLAG_CONSTKEY 2      /* key is borrowed (cJSON_StringIsConst) */
+#define VF_FLAG_REFCONT 4       /* container whose children belong to someone else (cJSON_IsReference on array/object) */
 #ifndef VF_FLAGS
 #define VF_FLAGS 0              /* flags a harness admits */
 #endif
@@ -95,6 +96,7 @@ static cJSON *vf_build_rec(vf_tree *t, unsigned i, int member)
         }
     }
     nk = vf_tnk(t, i);
+    if ((VF_FLAGS & VF_FLAG_REFCONT) && (t->flag[i] & VF_FLAG_REFCONT) && (kind == cJSON_Array || kind == cJSON_Object)) { n->type |= cJSON_IsReference; t->bcont[i] = 1; }
     for (j = 0; j < nk; j++) {
         cJSON *c = vf_build_rec(t, i * TK + 1 + j, kind == cJSON_Object);
         if (prev == 0) n->child = c; else { prev->next = c; c->prev = prev; }
